@@ -10,6 +10,8 @@
 package vh
 
 import (
+	"runtime"
+	"time"
 	"encoding/hex"
 	"encoding/json"
 	"fmt"
@@ -226,6 +228,18 @@ var fileBudget = -1
 
 // FileBudgetValue returns the budget set by FileBudget (native side, for truncation after the writes).
 func FileBudgetValue() int { return fileBudget }
+
+// Schedule switches the engine to schedule exploration: goroutines may be preempted before every synchronisation
+// operation, at most k times per path; every choice of who runs next is explored.  No effect natively.
+func Schedule(k int) {}
+
+// Quiesce lets all other goroutines run until they end or block for good (engine); natively it yields for a while.
+func Quiesce() {
+	for i := 0; i < 200; i++ {
+		runtime.Gosched()
+	}
+	time.Sleep(20 * time.Millisecond)
+}
 
 // Fresh returns a string distinct from every other Fresh string.
 func Fresh(prefix string) string {
